@@ -16,6 +16,24 @@ file must have one evaluated instance (loadonce); the command line runner
 (ckl.run -m <dir>) executing importer programs over generated module graphs
 with nested requires must print what the spec predicts.
 
+Round 3: (a) every generated module defines one public name per kind of value
+(statement `vals`: a plain object, list, map, string, NULL, TRUE, 0) and a name
+that every module defines (`common`); (b) importer forms `as shared` (asx) and
+`import [common, m_get as shared, length as .., MAXINT, secret as .., nosuch
+as ..]` (impx): names that collide between modules and with the importer's own
+`def common = 0`, listed symbols the module does not have (names of the base
+environment behind every module scope, of the importer, of nobody); the
+deviations ImportScopeChain / RebindKeep (cfgs Modules_devchain / _devkeep)
+must give TLC a counterexample of BindsExactly; (c) a user module named by a
+string ('ma', 'ma.ckl', 'lib/ma', './ma.ckl': Modules_spell, SessionOps.UserSpell);
+(d) Modules_two: two interpreters of ONE process whose module paths name
+different directories holding modules of the same names (AltFS11 / FSOfAlt) -
+state of the loader that outlives an interpreter or is shared by the process
+shows there; (e) the top level of a module may not run more often than the
+requires of the history account for (a cycle that is walked until the host's
+stack ends).  The additions to the shared observer are installed into
+harness/c10.py by install() below.
+
 Binding A: every generated module graph is written to disk as .ckl files (a
 load counter appended at the top of every file, private mutable state with
 public bump/get functions, probes that try to read an importer variable at load
@@ -32,10 +50,179 @@ import random
 import time
 
 from .common import MachineryError
+from .absval import to_py, tagged
 from . import c10 as S
 
 C11_VERDICT = {"names", "members", "value", "probe", "loadonce", "outcome-cls", "instance"}
 INTERPS = ["i1"]
+INTERPS2 = ["i1", "i2"]
+
+
+# ------------------------------------------------- round 3: what C11 adds to
+# the shared renderer / observer of harness/c10.py.  C11 runs in processes of
+# its own (./check C11, and the walker `python -m harness.c11 <job>`), so the
+# additions are installed into the shared module there and nowhere else.
+_ORIG = {}
+
+
+def vals_source(m, st):
+    """The statement `vals` of a generated module (SessionOps.SVals): one
+    public definition per kind of value, and the name every module defines."""
+    a = 10 if st["id"] == "alt" else 0
+    return [f"def common = {int(st['n']) + a};",
+            f"def {m}_objv = <* w = {3 + a} *>;",
+            f"def {m}_lstv = [{4 + a}];",
+            f"def {m}_mapv = <<< 'w' => {5 + a} >>>;",
+            f"def {m}_strv = '{'s' * (6 + a)}';",
+            f"def {m}_null = NULL;",
+            f"def {m}_bool = {'FALSE' if a else 'TRUE'};",
+            f"def {m}_zero = 0;"]
+
+
+def module_source(m, rec):
+    """c10's module text, with the statement `vals` written out where it stands
+    (first statement after the prelude)."""
+    body = rec.get("body") or []
+    vals = [st for st in body if st["op"] == "vals"]
+    if rec["syn"] or not vals:
+        return _ORIG["module_source"](m, rec)
+    if body[0]["op"] != "vals" or len(vals) != 1:
+        raise MachineryError("the statement vals is expected once, as the first statement of a module")
+    pre = _ORIG["module_source"](m, dict(rec, body=[]))
+    full = _ORIG["module_source"](m, dict(rec, body=body[1:]))
+    if not full.startswith(pre):
+        raise MachineryError("module text does not start with the prelude")
+    return pre + "\n".join(vals_source(m, vals[0])) + "\n" + full[len(pre):]
+
+
+def spelled(d):
+    """(module spec as written, the name it stands for): an identifier, or a
+    string (SessionOps.SpellOf) whose last path component names the file."""
+    if d.startswith("'"):
+        name = d.strip("'").split("/")[-1]
+        return d, name[:-4] if name.endswith(".ckl") else name
+    return d, d
+
+
+def require_src(d, form):
+    spec, n = spelled(d)
+    if form == "asx":
+        return f"require {spec} as shared"
+    if form == "impx":
+        return (f"require {spec} import [common, {n}_get as shared, length as i_{n}_len, MAXINT, "
+                f"secret as i_{n}_sec, nosuch as i_{n}_no]")
+    if spec == n:
+        return _ORIG["require_src"](d, form)
+    tail = _ORIG["require_src"](n, form)
+    head = f"require {n}"
+    if not tail.startswith(head):
+        raise MachineryError("unexpected require text " + tail)
+    return f"require {spec}" + tail[len(head):]
+
+
+VAL_KINDS = {"objv", "lstv", "mapv", "strv", "null", "bool"}
+
+
+def render_value(sess, i, expr, v, want_kind):
+    """The kinds of value the statement `vals` defines (spec: RenderSym, arm
+    "vals"); everything else as in c10."""
+    if want_kind not in VAL_KINDS:
+        return _ORIG["render_value"](sess, i, expr, v, want_kind)
+    p = tagged(to_py(v))
+    if want_kind == "null" and p is None:
+        return ("null", 0)
+    if want_kind == "bool" and p in (("bool", "T"), ("bool", "F")):
+        return ("bool", 1 if p[1] == "T" else 0)
+    if isinstance(p, tuple) and len(p) == 2:
+        if (want_kind == "objv" and p[0] == "obj" and not getattr(v, "isModule", False)
+                and len(p[1]) == 1 and p[1][0][0] == "w" and type(p[1][0][1]) is int):
+            return ("objv", p[1][0][1])
+        if want_kind == "lstv" and p[0] == "list" and len(p[1]) == 1 and type(p[1][0]) is int:
+            return ("lstv", p[1][0])
+        if want_kind == "mapv" and p[0] == "map" and len(p[1]) == 1:
+            (k, x), = p[1]
+            if k == ("str", "w") and type(x) is int:
+                return ("mapv", x)
+        if want_kind == "strv" and p[0] == "str" and isinstance(p[1], str) and set(p[1]) <= {"s"}:
+            return ("strv", len(p[1]))
+    return ("other", 0, repr(p)[:60])
+
+
+def observe(sess, i, want, names_only=False, soft=()):
+    """c10's comparison of a scope, plus: a name of the base environment that
+    the session scope itself holds (an import list that was resolved through
+    the module's parent chain binds e.g. MAXINT there).  ls() cannot show it
+    (the name is visible anyway), the scope map can; without one the check is
+    left to the aliased names of the same list, which ls() does show."""
+    diffs = _ORIG["observe"](sess, i, want, names_only=names_only, soft=soft)
+    it = sess.it.get(i)
+    smap = S.scope_map(it.environment) if it is not None else None
+    if smap is not None:
+        exp = set(want) if want != [] else set()
+        for n in sorted((set(smap) & set(sess.base_names)) - exp):
+            diffs.append(("names", f"unexpected name {n} in the scope of {i} (a name of the base environment, "
+                                   f"now bound in the session scope as well)"))
+    return diffs
+
+
+def diagnostics(sess, i, key, loadcap):
+    """c10's diagnostics, plus: the top level of a module ran more often than
+    the requires of the history account for (the spec runs a module that failed
+    again at the next require, so its counter - while below loadcap - is exact).
+    `At most once`, and `a cycle is reported as an error instead of looping`:
+    a loader that goes round a cycle until the host's stack ends runs each top
+    level hundreds of times and caches none of the modules."""
+    d = _ORIG["diagnostics"](sess, i, key, loadcap)
+    if i not in sess.it:
+        return d
+    log = [x.value for x in sess.loadlog[i].value]
+    wantl = key["l"][i] if key["l"][i] != [] else {}
+    have = {what for cat, what in d if cat == "loadonce"}
+    for m in sorted(set(log) - S.MODEL_BUNDLED):
+        n, w = log.count(m), wantl.get(m, 0)
+        what = f"{i}: the top level of module {m} ran {n} times"
+        if n > 1 and n > w and w < loadcap and what not in have:
+            d.append(("loadonce", what + f", the requires so far account for {w}"))
+    return d
+
+
+def run_walk_job(job, d):
+    """The walk runs in a fresh process of this module (see install)."""
+    import os
+    import subprocess
+    import sys
+    jpath = os.path.join(d, "job.json")
+    with open(jpath, "w") as f:
+        json.dump(job, f)
+    p = subprocess.run([sys.executable, "-m", "harness.c11", jpath], env=dict(os.environ),
+                       cwd=os.path.dirname(os.path.dirname(os.path.abspath(__file__))),
+                       stdout=subprocess.PIPE, stderr=subprocess.STDOUT, text=True, timeout=7000)
+    if p.returncode != 0:
+        raise MachineryError("walker failed: " + p.stdout[-2000:])
+
+
+def install():
+    for name, fn in (("module_source", module_source), ("require_src", require_src),
+                     ("render_value", render_value), ("observe", observe), ("diagnostics", diagnostics),
+                     ("run_walk_job", run_walk_job)):
+        if name not in _ORIG:
+            if not callable(getattr(S, name, None)):
+                raise MachineryError("harness/c10.py has no function " + name)
+            _ORIG[name] = getattr(S, name)
+            setattr(S, name, fn)
+
+
+install()
+
+
+def with_alt(fsdefs, res):
+    """Round 3: the directories of single interpreters (record FSALT) go with
+    every generated file system of the run."""
+    for extra in res.records("FSALT")[:1]:
+        alt = extra["alt"] if extra["alt"] != [] else {}
+        for f in fsdefs:
+            f["alt"] = alt
+    return fsdefs
 
 
 def roots_of(g):
@@ -299,6 +486,25 @@ def replay_runner(run, case):
         shutil.rmtree(d, ignore_errors=True)
 
 
+DEVIATIONS = {
+    "Modules_devchain": "ImportScope <- ImportScopeChain (an import list resolved through the module's "
+                        "environment chain)",
+    "Modules_devkeep": "Rebind <- RebindKeep (a require keeps what the importer's scope already holds)",
+}
+
+
+def check_deviations(run, ahead, info):
+    """Round 3: with a named deviation substituted TLC must find a
+    counterexample of BindsExactly - otherwise the property says nothing
+    about listed symbols the module does not have / about names that collide."""
+    for cfg, what in DEVIATIONS.items():
+        res = ahead.take(cfg)
+        run.add_tlc(res, f"Session/c11 with the deviation {what}: counterexample expected")
+        if res.ok or "Action property BindsExactly is violated" not in res.out:
+            raise MachineryError(cfg + ": TLC did not find the expected counterexample of BindsExactly")
+    info["deviations_refuted"] = sorted(DEVIATIONS)
+
+
 def run(run):
     quick = run.tier == "quick"
     rng = random.Random(run.seed)
@@ -317,6 +523,9 @@ def run(run):
     ahead.graph("Modules_pairs")
     ahead.graph("Modules_sim", **sim_kw(1500 if quick else 10000, "Modules_sim"))
     ahead.graph("Modules_spell")
+    ahead.graph("Modules_two")
+    for cfg in DEVIATIONS:
+        ahead.start(cfg, workers=2, allow_violation=True, timeout=900)
     try:
         run_checks(run, quick, rng, info, ahead, sim_kw)
     finally:
@@ -326,12 +535,13 @@ def run(run):
 def run_checks(run, quick, rng, info, ahead, sim_kw):
     total_edges = total_evals = 0
 
-    def bfs(cfg, label, name, off=()):
+    def bfs(cfg, label, name, off=(), interps=INTERPS):
         nonlocal total_edges, total_evals
         g, res = S.tlc_graph(run, cfg, label, c11=True, off=off, ahead=ahead if cfg in ahead.futs else None)
         fsdefs, roots = roots_of(g)
+        with_alt(fsdefs, res)
         t0 = time.time()
-        e, v = S.walk(run, g, INTERPS, [(sid, fi, None) for sid, fi in roots], fsdefs, "cover",
+        e, v = S.walk(run, g, interps, [(sid, fi, None) for sid, fi in roots], fsdefs, "cover",
                       C11_VERDICT, "c11/" + cfg, loadcap=2)
         total_edges += e
         total_evals += v
@@ -345,6 +555,7 @@ def run_checks(run, quick, rng, info, ahead, sim_kw):
         g, res = S.tlc_graph(run, cfg, label, c11=True, ahead=ahead if cfg in ahead.futs else None,
                              **sim_kw(num, cfg))
         fsdefs, roots, ntraces = traces_of(g, res)
+        with_alt(fsdefs, res)
         t0 = time.time()
         e, v = S.walk(run, g, INTERPS, roots, fsdefs, "trie", C11_VERDICT, "c11/" + cfg, loadcap=2)
         total_edges += e
@@ -368,6 +579,10 @@ def run_checks(run, quick, rng, info, ahead, sim_kw):
     runner(run, g, fsdefs, roots, rng, info, 12 if quick else 80)
     bfs("Modules_spell", "Session/c11: bundled modules sys / stat under every spelling, importer programs <= 3 "
         "commands", "bundled_spellings", off=("GenEdge",))
+    bfs("Modules_two", "Session/c11: two interpreters with different module directories (generated graph over 2 "
+        "modules / the fixed second directory), interleaved programs <= 2 commands", "two_directories",
+        interps=INTERPS2)
+    check_deviations(run, ahead, info)
     if not quick:
         bfs("Modules_thorough", "Session/c11: all graphs over 3 modules, importer programs <= 2 commands",
             "graphs3_pairs")
@@ -390,7 +605,16 @@ def run_checks(run, quick, rng, info, ahead, sim_kw):
         "(the import lists used here contain one private name to exercise this)",
         "a module whose top level fails is run again by the next require; `at most once` is judged for "
         "modules that end up in the cache",
-        "aliases and definition names never collide with module identifiers",
+        "aliases and definition names never collide with module identifiers (names DO collide between modules "
+        "and with the importer's own definitions: `common`, `shared`; the later binding wins)",
+        "a symbol of an import list is looked up in the module's own top-level scope only (SessionOps.ImportScope); "
+        "a base-environment name bound in the session scope by a require is read from the scope map when the "
+        "implementation has one (ls() cannot show it), else only the aliased names of the list are judged",
+        "a user module named by a string is the file the string's last path component names; only the spellings "
+        "whose bound name is beyond doubt are used ('ma' plain; 'ma.ckl' / 'lib/ma' / './ma.ckl' with `as`, "
+        "`import`, `unqualified`)",
+        "the top level of a module that is not cached may run once per require that reaches it; more runs than the "
+        "spec's (unsaturated) load counter are a violation (loadonce)",
         "a bundled module is one module whatever the case of the name it is required under (the loader "
         "finds it case-insensitively); its members are not modelled, only the object, the instance it shows "
         "and the number of evaluated instances in the module cache",
@@ -405,3 +629,8 @@ def replay(run, case):
     if case.get("kind") == "runner":
         return replay_runner(run, case)
     S.replay_history(run, case, C11_VERDICT, "c11")
+
+
+if __name__ == "__main__":
+    import sys
+    S.walk_main(sys.argv[1])
